@@ -11,6 +11,9 @@ import time as _time
 
 HERE = os.path.dirname(os.path.dirname(os.path.abspath(__file__)))
 REPO = os.path.realpath(os.environ.get('USIM_REPO', '/repo'))
+# mutant trials (tools/try_mutant_wt.sh) redirect evidence/ and replays/ so that the committed
+# evidence of /verif is never overwritten by a run on a patched scratch worktree
+OUT = os.environ.get('VERIF_OUT') or HERE
 
 TECHNIQUE = ('symbolic execution of the real usim sources on z3 (numbers are z3 terms, '
              'every comparison decided by the solver, exhaustive path closure within the '
@@ -64,8 +67,8 @@ def cmd_check(pid, tier, only=None, selftest=False):
     known_hits = {}
     harness_errors = []
     inconclusive = []
-    os.makedirs(os.path.join(HERE, 'replays'), exist_ok=True)
-    os.makedirs(os.path.join(HERE, 'evidence'), exist_ok=True)
+    os.makedirs(os.path.join(OUT, 'replays'), exist_ok=True)
+    os.makedirs(os.path.join(OUT, 'evidence'), exist_ok=True)
     dump_max = 40 if tier == 'thorough' else 0
     for fam in mod.FAMILIES:
         if only and fam.name not in only:
@@ -112,7 +115,7 @@ def cmd_check(pid, tier, only=None, selftest=False):
                                                 v['concrete_failed'], v['concrete_detail']))
                 continue
             n += 1
-            path = os.path.join(HERE, 'replays', '%s-%s-%d.json' % (pid, fam.name, n))
+            path = os.path.join(OUT, 'replays', '%s-%s-%d.json' % (pid, fam.name, n))
             json.dump({'property': pid, 'family': fam.name, 'tier': tier, 'label': v['label'],
                        'inputs': v['inputs'], 'detail': v['detail']}, open(path, 'w'), indent=1)
             new_violations.append((fam.name, v, path))
@@ -126,7 +129,7 @@ def cmd_check(pid, tier, only=None, selftest=False):
         post, problems = mod.post_check(pid, tier, reports, seed)
         for kind, text in problems:
             if kind == 'violation':
-                path = os.path.join(HERE, 'replays', '%s-postcheck-%d.json' % (
+                path = os.path.join(OUT, 'replays', '%s-postcheck-%d.json' % (
                     pid, len(new_violations) + 1))
                 json.dump({'property': pid, 'kind': 'post_check', 'tier': tier, 'detail': text,
                            'family': text.split(':')[0], 'label': 'assertion-mode-differential',
@@ -242,7 +245,7 @@ def _write_evidence(pid, tier, seed, mod, reports, new_violations, known_hits, h
         'wall_s': round(wall, 2),
         'violations': len(new_violations),
     }
-    path = os.path.join(HERE, 'evidence', '%s.json' % pid)
+    path = os.path.join(OUT, 'evidence', '%s.json' % pid)
     tmp = path + '.tmp'
     json.dump(ev, open(tmp, 'w'), indent=1, default=str)
     os.replace(tmp, path)
